@@ -8,7 +8,7 @@ VARIABLES hist, cfg0, tainted
 HInit == Init /\ hist = <<>> /\ cfg0 = cfg /\ tainted = FALSE
 Rec(ev, f, v) == [ev |-> ev, f |-> f, d |-> f, c |-> f, v |-> v]
 \* F-C10-e trigger: a file is created while a processed source that requires it is in its error state
-Trigger(f) == \E i \in Idx : Live(i) /\ slots[i].st = "err" /\ f \in Requires[slots[i].p]
+Trigger(f) == \E i \in Idx : Live(i) /\ slots[i].st = "err" /\ f \in ReachOf(inp', slots[i].p)      \* evaluated within Add(f): inp' holds the new file
 \* F-C10-f trigger: a directory is removed while a work item OUTSIDE it depends on one of its files
 Trigger2(d) == \E i \in Idx : Live(i) /\ DirOf[slots[i].p] # d /\ \E f \in Files : DirOf[f] = d /\ i \in extmap[f]
 HNext ==
